@@ -125,6 +125,9 @@ pub struct Ca {
     /// Does the CA additionally hold 0.0.0.0/0 and ::/0?
     #[serde(default)]
     pub slash0: bool,
+    /// With `slash0`: 0 = both families are /0, 1 = only IPv4 is 0.0.0.0/0 (IPv6 are the blocks), 2 = only IPv6 is ::/0.
+    #[serde(default)]
+    pub slash0_families: u8,
     /// Serial numbers of EE certificates of objects that are no longer published and are listed on the CRL
     /// (a CA revokes what it replaces).
     #[serde(default)]
@@ -184,6 +187,12 @@ impl World {
         for c in self.children(ca) { out.extend(self.blocks(c)); }
         out.sort(); out.dedup();
         out
+    }
+
+    /// Does the CA hold the whole IPv4 / IPv6 address family?
+    pub fn whole_family(&self, ca: usize, v4: bool) -> bool {
+        let c = &self.cas[ca];
+        c.slash0 && match c.slash0_families { 1 => v4, 2 => !v4, _ => true }
     }
 
     pub fn is_ancestor(&self, anc: usize, of: usize) -> bool {
@@ -278,7 +287,9 @@ pub fn gen_object(rng: &mut Rng, now: Ts, ca: usize, blocks: &[usize], n: usize,
             asns.sort(); asns.dedup();
             (ObjKind::Router { asns, ec: rng.usize(4) }, "cer")
         }
-        _ => if rng.bool() { (ObjKind::Gbr, "gbr") } else { (ObjKind::Unknown, "xyz") },
+        // an unknown object may also be named like a CRL: a listed ".crl" that is not the manifest's own CRL is a stray
+        // file that still has to match its manifest hash
+        _ => if rng.bool() { (ObjKind::Gbr, "gbr") } else if rng.chance(1, 3) { (ObjKind::Unknown, "xyz") } else { (ObjKind::Unknown, "crl") },
     };
     Obj { name: format!("o{ca}-{n}.{ext}"), kind, serial, nb: now - DAY, na: now + 30 * DAY + (rng.below(300) as Ts) * DAY, fault: None, salt: 0 }
 }
@@ -305,7 +316,7 @@ pub fn generate(rng: &mut Rng, now: Ts, p: &GenParams) -> World {
                 id, parent, tal: t, key: next_key % super::keys::CA_KEYS, repo, rrdp: false, extra_blocks: Vec::new(),
                 mft_number: 1 + rng.below(1000), mft_this: this, mft_next: next, mft_ee_nb: this - 60, mft_ee_na: next + rng.below(3 * DAY as u64) as Ts,
                 mft_serial: 1, crl_this: this, crl_next: next + rng.below(DAY as u64) as Ts,
-                point_faults: Vec::new(), fault_target: 0, objects: Vec::new(), unreachable: false, alias_of: None, slash0: false, also_revoked: Vec::new(),
+                point_faults: Vec::new(), fault_target: 0, objects: Vec::new(), unreachable: false, alias_of: None, slash0: false, slash0_families: 0, also_revoked: Vec::new(),
             });
             next_key += 1;
             if let Some(pp) = parent {
@@ -388,6 +399,9 @@ pub fn apply_point_fault(w: &mut World, ca: usize, f: PointFault, rng: &mut Rng)
         PointFault::MissingFile | PointFault::WrongHash => {
             let listed: Vec<usize> = (0..c.objects.len()).filter(|i| c.objects[*i].fault != Some(Fault::Unlisted)).collect();
             c.fault_target = listed[rng.usize(listed.len())];
+            // half of the time the fault hits a stray ".crl" if the point lists one (an object type of its own in the
+            // validator's loop over manifest entries)
+            if let Some(i) = listed.iter().find(|i| c.objects[**i].name.ends_with(".crl")) { if rng.bool() { c.fault_target = *i; } }
         }
         PointFault::MftPremature => { c.mft_this = now + 3600; if c.mft_next < c.mft_this + 3600 { c.mft_next = c.mft_this + DAY } c.mft_ee_nb = now - 3600; }
         PointFault::MftStale => { c.mft_next = now - 1800; c.mft_this = now - 2 * DAY; c.mft_ee_nb = c.mft_this - 60; }
@@ -417,7 +431,7 @@ pub fn gen_chain(rng: &mut Rng, now: Ts, len: usize, objs: usize) -> World {
         let this = now - 3600; let next = now + 3 * DAY;
         w.cas.push(Ca { id, parent: if id == 0 { None } else { Some(id - 1) }, tal: 0, key: id % super::keys::CA_KEYS, repo: id % 2, rrdp: false, extra_blocks: Vec::new(),
             mft_number: 5, mft_this: this, mft_next: next, mft_ee_nb: this - 60, mft_ee_na: next + DAY, mft_serial: 1, crl_this: this, crl_next: next,
-            point_faults: Vec::new(), fault_target: 0, objects: Vec::new(), unreachable: false, alias_of: None, slash0: false, also_revoked: Vec::new() });
+            point_faults: Vec::new(), fault_target: 0, objects: Vec::new(), unreachable: false, alias_of: None, slash0: false, slash0_families: 0, also_revoked: Vec::new() });
         if id > 0 {
             let serial = 10 + w.cas[id - 1].objects.len() as u64;
             w.cas[id - 1].objects.push(Obj { name: format!("ca{id}.cer"), kind: ObjKind::ChildCa(id), serial, nb: now - 2 * DAY, na: now + 90 * DAY, fault: None, salt: 0 });
@@ -436,7 +450,7 @@ pub fn add_child(w: &mut World, rng: &mut Rng, parent: usize, repo: usize, objs:
     let now = w.now;
     let mut c = w.cas[parent].clone();
     c.id = id; c.parent = Some(parent); c.repo = repo; c.objects = Vec::new(); c.extra_blocks = Vec::new();
-    c.point_faults = Vec::new(); c.unreachable = false; c.alias_of = None; c.slash0 = false;
+    c.point_faults = Vec::new(); c.unreachable = false; c.alias_of = None; c.slash0 = false; c.slash0_families = 0;
     // a key not yet on the chain to the root
     let mut used: Vec<usize> = vec![w.cas[parent].key];
     let mut p = parent; while let Some(pp) = w.cas[p].parent { used.push(w.cas[pp].key); p = pp; }
